@@ -931,6 +931,38 @@ def _lane_id(arr):
     return tuple(_tid(x) if is_sym(x) else ("c", x if isinstance(x, (bool, int)) else float(x)) for x in np.asarray(arr, dtype=object).reshape(-1))
 
 
+KEY_CASE_DEPTH = 8
+
+
+def _key_cases(lane, depth=0):
+    """A key lane whose two words are `If(c, a_i, b_i)` with ONE shared condition (the key left by `lax.cond` / a batched `select`:
+    "split only when something was delivered") is split into the cases of that condition.  Derived keys and draws are then
+    memoised on the LEAF keys and re-joined with the same condition: draw(ite(c, A, B)) = ite(c, draw(A), draw(B)) is exact for a
+    function of the key, and it makes two encodings of the same program agree when their conditions are only semantically (not
+    syntactically) the same term - memoising on the identity of the whole ite term gave vmap(step) and step different draws
+    (RobotWarehouse: the per-agent key chain inside `lax.scan` + `lax.cond`)."""
+    l = list(np.asarray(lane, dtype=object).reshape(-1))
+    if depth < KEY_CASE_DEPTH and l and all(is_sym(x) and z3.is_app_of(x, z3.Z3_OP_ITE) for x in l):
+        c = l[0].arg(0)
+        if all(x.arg(0).eq(c) for x in l[1:]):
+            return ("ite", c, _key_cases([x.arg(1) for x in l], depth + 1), _key_cases([x.arg(2) for x in l], depth + 1))
+    out = np.empty(len(l), dtype=object)
+    for i, x in enumerate(l):
+        out[i] = x.as_long() if (is_sym(x) and z3.is_bv_value(x)) else x
+    return ("leaf", out)
+
+
+def _lane_apply(tree, fn, dt):
+    """fn(leaf key lane) -> object array block; blocks of the cases are joined elementwise with the case condition"""
+    if tree[0] == "leaf":
+        return fn(tree[1])
+    t, e = np.asarray(_lane_apply(tree[2], fn, dt), dtype=object), np.asarray(_lane_apply(tree[3], fn, dt), dtype=object)
+    out = np.empty(t.shape, dtype=object)
+    for i in np.ndindex(*t.shape):
+        out[i] = t[i] if (t[i] is e[i]) else ite(tree[1], t[i], e[i], dt)
+    return out
+
+
 def eval_random(ctx, eqn, ins):
     """keys are u32 pairs (last axis 2). Every derived key / bit block is a fresh variable block
     memoised on the identity of the *single* key it derives from, so batching (vmap) and
@@ -959,11 +991,16 @@ def eval_random(ctx, eqn, ins):
     lane_shape = oshape[len(kshape):]
     out = np.empty(oshape, dtype=object)
     extra = tuple(keyid(i) for i in ins[1:])
-    for b in np.ndindex(*kshape):
-        mk = (name, _lane_id(keys[b]), lane_shape, extra, str(sorted((k, str(x)) for k, x in eqn.params.items() if k != "shape")))
+    pstr = str(sorted((k, str(x)) for k, x in eqn.params.items() if k != "shape"))
+
+    def leaf(lane):
+        mk = (name, _lane_id(lane), lane_shape, extra, pstr)
         if mk not in ctx.memo:
             ctx.memo[mk] = ctx.fresh_arr(name, lane_shape, odt).a
-        out[b] = ctx.memo[mk] if lane_shape else ctx.memo[mk][()]
+        return ctx.memo[mk]
+    for b in np.ndindex(*kshape):
+        blk = _lane_apply(_key_cases(keys[b]), leaf, odt)
+        out[b] = blk if lane_shape else blk[()]
     return [SV(out, odt)]
 
 
@@ -1600,16 +1637,13 @@ def _lane_stub(kind):
         lo = _bcast_operand(inner, 1, minval, oshape)
         hi = _bcast_operand(inner, 2, maxval, oshape)
         for b in np.ndindex(*kshape):
-            mk = (kind, _lane_id(keys[b]), lane_shape, str(dt), _lane_id(lo[b] if lane_shape else lo[b:b + 1] if False else np.asarray(lo[b], dtype=object)),
+          def leaf(lane, b=b):
+            mk = (kind, _lane_id(lane), lane_shape, str(dt), _lane_id(lo[b] if lane_shape else lo[b:b + 1] if False else np.asarray(lo[b], dtype=object)),
                   _lane_id(np.asarray(hi[b], dtype=object)))
             new = mk not in ctx.memo
             if new:
                 ctx.memo[mk] = ctx.fresh_arr(kind, lane_shape, dt).a
             blk = ctx.memo[mk]
-            if lane_shape:
-                out[b] = blk
-            else:
-                out[b] = blk[()]
             if new:
                 for i in np.ndindex(*lane_shape):
                     x = blk[i]
@@ -1627,6 +1661,9 @@ def _lane_stub(kind):
                         lo_i, hi_i = min(lv), max(max(hv) - 1, max(lv))
                         if hi_i - lo_i < VS_MAX:
                             vs_set(x, list(range(lo_i, hi_i + 1)))
+            return blk
+          blk_ = _lane_apply(_key_cases(keys[b]), leaf, dt)
+          out[b] = blk_ if lane_shape else blk_[()]
         return [SV(out, dt)]
     return stub
 
@@ -1655,13 +1692,15 @@ def stub_shuffle(ctx, eqn, ins):
     keys = key.obj()
     outs = np.empty(oshape, dtype=object)
     for b in (np.ndindex(*kshape) if kshape else [()]):
-        mk = ("shuffle", _lane_id(keys[b] if kshape else keys), n)
-        if mk not in ctx.memo:
-            pi = ctx.fresh_arr("shuffle_pi", (n,), np.int32, 0, n - 1).a
-            if n > 1:
-                ctx.assumptions.append(z3.Distinct(*[to_z3(p, np.int32) for p in pi]))
-            ctx.memo[mk] = pi
-        pi = ctx.memo[mk]
+        def leaf_pi(lane):
+            mk = ("shuffle", _lane_id(lane), n)
+            if mk not in ctx.memo:
+                pi_ = ctx.fresh_arr("shuffle_pi", (n,), np.int32, 0, n - 1).a
+                if n > 1:
+                    ctx.assumptions.append(z3.Distinct(*[to_z3(p, np.int32) for p in pi_]))
+                ctx.memo[mk] = pi_
+            return ctx.memo[mk]
+        pi = _lane_apply(_key_cases(keys[b] if kshape else keys), leaf_pi, np.int32)
         xo = x.obj() if x.a.ndim == 1 else x.obj()[b]
         xc = x.a if (x.conc and x.a.ndim == 1) else (x.a[b] if x.conc else None)
         ident = xc is not None and dt.kind in "iu" and np.array_equal(xc, np.arange(n))
@@ -1688,13 +1727,16 @@ def stub_gumbel(ctx, eqn, ins):
     lane_shape = oshape[len(kshape):]
     out = np.empty(oshape, dtype=object)
     for b in np.ndindex(*kshape):
-        mk = ("gumbel", _lane_id(keys[b]), lane_shape)
-        if mk not in ctx.memo:
-            blk = ctx.fresh_arr("gumbel", lane_shape, dt).a
-            for x in blk.reshape(-1):
-                ctx.assumptions.append(z3.Not(z3.Or(z3.fpIsNaN(x), z3.fpIsInf(x))))
-            ctx.memo[mk] = blk
-        out[b] = ctx.memo[mk] if lane_shape else ctx.memo[mk][()]
+        def leaf_g(lane):
+            mk = ("gumbel", _lane_id(lane), lane_shape)
+            if mk not in ctx.memo:
+                blk = ctx.fresh_arr("gumbel", lane_shape, dt).a
+                for x in blk.reshape(-1):
+                    ctx.assumptions.append(z3.Not(z3.Or(z3.fpIsNaN(x), z3.fpIsInf(x))))
+                ctx.memo[mk] = blk
+            return ctx.memo[mk]
+        blk_ = _lane_apply(_key_cases(keys[b]), leaf_g, dt)
+        out[b] = blk_ if lane_shape else blk_[()]
     return [SV(out, dt)]
 
 
